@@ -243,6 +243,11 @@ class PipeGen(object):
         path = '$' + self.r.choice(['l', 'l', 'm', 'q', 'd.l', 'x', 'zz', 'k', 'a', 'd', 'q.n',
                                     'l.0', 'd.zz'])
         x = self.r.random()
+        if self.r.random() < 0.15:
+            # one source document, several outputs that must not share what they hold: the index
+            # goes into an existing sub-document
+            return {'$unwind': {'path': self.r.choice(['$l', '$m', '$q']),
+                                'includeArrayIndex': self.r.choice(['d.i', 'd.n', 'x.i'])}}
         if x < 0.45:
             return {'$unwind': path}
         if x < 0.95:
